@@ -188,9 +188,11 @@ func (k Keeper) ValidateClaim(ctx sdk.Ctx, claim pc.MsgClaim) (err sdk.Error) {
 	}
 	// get the session node count for the time of the session
 	sessionNodeCount := int(k.SessionNodeCount(sessionContext))
-	// check cache
-	session, found := pc.GetSession(claim.SessionHeader, pc.GlobalSessionCache)
-	if !found {
+	// Always derive the session from chain state here. The node-local session cache is filled by dispatch requests
+	// from whatever state the node had when it served them (e.g. before a session node was jailed), so consulting it
+	// made the verdict on a claim depend on the traffic this particular node happened to serve.
+	var session pc.Session
+	{
 		// use the session end context to ensure that people who were jailed mid session do not get to submit claims
 		sessionEndCtx, er := ctx.PrevCtx(sessionEndHeight)
 		if er != nil {
